@@ -3,23 +3,23 @@
 import json, os
 here = os.path.dirname(os.path.dirname(os.path.abspath(__file__)))
 P = {
- "C01": ("exploration", "boundary monitor on diff_notebooks/patch_notebook + independent reference patcher + file interface (nbdiff --out / nbpatch -o) over seeded notebook pairs",
+ "C01": ("exploration", "boundary monitor on diff_notebooks/patch_notebook + independent reference patcher + file interface (nbdiff --out / nbpatch -o, re-used output paths, subprocesses also under a C locale) over seeded notebook pairs incl. size-boundary classes; two shards under python -O",
          "Held on the generated executions only: every pair of the run is judged by nbdime's patch, an independent reference patcher and the emptiness clause; heuristic branches reached are counted in the evidence.",
          "Reference patcher vmon/refdiff.py encodes docs/source/diffing.rst; inputs are schema-valid by self-check; nbformat read/write is trusted."),
- "C02": ("exploration", "boundary monitor on nbdime.diff/patch with type-strict canonical JSON + independent reference patcher; exhaustive small spaces + random",
+ "C02": ("exploration", "boundary monitor on nbdime.diff/patch with type-strict canonical JSON + independent reference patcher; exhaustive small spaces + random, chained (patch result diffed again), JSON-transported diffs, long documents; two shards under python -O",
          "Exhaustive for the enumerated small spaces (lists<=N, strings<=N, dicts, nestings), sampled beyond; no claim outside executions observed.",
          "Reference patcher vmon/refdiff.py encodes docs/source/diffing.rst."),
- "C03": ("exploration", "never-raises monitor (M-NOEXC) on merge_notebooks over generated triples x strategy combinations x PATH variants (git / diff3 / built-in)",
+ "C03": ("exploration", "never-raises monitor (M-NOEXC) on merge_notebooks over generated triples (40 classes + exhaustive degenerate documents) x strategy combinations x PATH variants (git / diff3 / diff only / none / directory with blanks) x user git configurations (conflict styles, unparsable); every fifth merge called from a worker thread, one in six at log level DEBUG",
          "Held on the merges executed; arms of the chunk switch reached are counted.", "Inputs valid by self-check; args produced by the real nbmerge parser."),
  "C04": ("exploration", "jsonschema oracle (nbformat's per-minor schema) on every merged notebook of the C03 stream, all minors",
          "Held on the merges executed.", "nbformat's shipped schema files are the definition of validity."),
- "C05": ("exploration", "law monitors (identity, one-sided, agreement, symmetry) on merge_notebooks and decide_merge+apply_decisions; exhaustive small generic triples",
+ "C05": ("exploration", "law monitors (identity, one-sided, agreement, symmetry) on merge_notebooks (incl. the documented union strategy) and decide_merge+apply_decisions; exhaustive small generic triples and line-edit pairs; long documents; one shard under python -O",
          "Exhaustive for enumerated generic spaces, sampled for notebooks.", "Symmetry precondition evaluated conservatively (excluded triples are counted, not judged)."),
  "C06": ("exploration", "by-construction expected merge (ownership bookkeeping) compared with merge result; conflict flags",
          "Held on generated disjoint-ownership triples.", "Expected result built by the generator without nbdime."),
  "C07": ("exploration", "line survival / provenance / conflict-flag oracle on merged sources under git merge-file, diff3, built-in renderers",
          "Held on generated triples x 3 renderers.", "Closed list of marker regexes; blank lines ignored as the property states."),
- "C08": ("fault_enumeration", "real nbmerge / git-nbmergedriver processes; sys.monitoring failpoints at every named step boundary x {OSError, MemoryError, KeyboardInterrupt, SIGKILL}; exit status and output bytes judged",
+ "C08": ("fault_enumeration", "real nbmerge / git-nbmergedriver processes; sys.monitoring failpoints at every named step boundary x {OSError in six shapes, MemoryError, KeyboardInterrupt, SIGKILL}; real faults (/dev/full, closed pipe); exit status and output bytes judged against an independent library merge of the intended inputs; real `git merge` runs",
          "Every listed boundary x fault kind for each sampled case; not every instruction.", "A fault inside a pure computation step behaves like one at its entry (nothing written yet)."),
  "C09": ("exploration", "independent decision applier + schema validation + ordering oracle on decisions from merge_notebooks",
          "Held on generated triples.", "vmon/refapply.py encodes docs/source/merging.rst."),
@@ -27,7 +27,7 @@ P = {
          "Held on generated conflicting triples.", "Both sides of the comparison are produced by the real code."),
  "C11": ("exploration", "structural well-formedness checker + schema + JSON round trip on every diff returned and every diff embedded in decisions",
          "Held on all diffs observed.", "Checker vmon/refdiff.py encodes the documented format."),
- "C12": ("exploration", "fresh-interpreter differential replay of every diff/merge op of hostile in-process histories + global-state watcher",
+ "C12": ("exploration", "fresh-interpreter differential replay (documents re-ordered member-wise) of every diff/merge op of hostile in-process histories (wide documents, configure-after-use, both directions of threshold-straddling pairs, revision chains) + global-state watcher",
          "Held on generated histories.", "Fresh process gets same env, PATH, hash seed."),
  "C13": ("exploration", "snapshot/compare of every argument around every public call + aliasing probe on results",
          "Held on monitored calls.", "Canonical JSON sorts keys: key order is not content."),
